@@ -188,6 +188,16 @@ class KRealOb:
                % (repo, self.harness, vlib.KANI_TARGET)) + CBMC_ARGS
         with _real_build_lock:
             if not _real_built[0]:
+                # the Kani target directory of the real crate is shared by all checks: two check PROCESSES working in it at the same time
+                # (e.g. two seeded changes checked in parallel) corrupt each other's goto binaries (goto-instrument aborts).  One process at a
+                # time: an advisory lock, taken at the first K-real obligation and held until this check exits.
+                import fcntl
+                global _real_flock
+                _real_flock = open(vlib.KANI_TARGET + '.lock', 'w')
+                t0 = time.time()
+                fcntl.flock(_real_flock, fcntl.LOCK_EX)
+                if time.time() - t0 > 1:
+                    log('[K-real] waited %.0fs for another check process using the shared Kani target directory' % (time.time() - t0))
                 t0 = time.time()
                 rc, out, secs = run('cd %s && cargo kani -Z stubbing --only-codegen --target-dir %s' % (repo, vlib.KANI_TARGET),
                                     timeout=1500, mem_gb=24, logfile=os.path.join(ctx.logdir, '%s.kreal-build.log' % ctx.prop))
